@@ -91,6 +91,18 @@ def cases(rng, tier):
             yield Case(program=f"({body}) ({X} (({X1} {X1} ㅁㄹㅎㄷ) {ID} ㅅㄷㅎㄷ ㅎ) ㅅㄷㅎㄷ ㅎ) ㅎㄴ", variants=(exc,), tag='retry-in-list', stdin="x\n")
             yield Case(program=f"({body}) ((({X} (ㄱ ㅎ) ㅅㄷㅎㄷ) {X} ㅁㄹㅎㄷ) {ID} ㅅㄷㅎㄷ ㅎ) ㅎㄴ", variants=(exc,), tag='retry-after-swallow', stdin="x\n")
             yield Case(program=f"({body}) ({X} ({X1} ㅎ) ㅅㄷㅎㄷ ㅎ) ㅎㄴ", variants=(body,), tag='retry-uncaught', stdin="x\n")
+        # the handler is looked at only when the first argument raises: a faulty handler *expression* (raising,
+        # ill-typed, diverging, not callable, dangling) next to a first argument that evaluates fine is never touched
+        BAD_H = ["(ㄴ ㄷㅂㅎㄴ ㄷㅈㅎㄴ)", "(ㅂㄱㅎㄱ ㅎㄱ)", "(ㄴ ㄱㅇ ㅎㄱ ㄷㅎㄷ ㅎ ㅎㄱ)", "(ㅂㄱㅎㄱ)", "ㄷ", "(ㄴ ㄱ ㄴㄴㅎㄷ)", "(ㅈㅈㅈ ㅇ)", "(ㅈㅈㅈㅈㅈ ㅎㄱ)"]
+        for hbad in BAD_H:
+            v = render(g.gen(rng.choice(['int', 'str', 'list']), None, 2)) if False else render(gen.lit(rng.randint(-9, 99)))
+            vl = f"({v} {v} ㅁㄹㅎㄷ)"
+            yield Case(program=f"{v} {hbad} ㅅㄷㅎㄷ", variants=(v,), tag='handler-untouched', stdin="x\n")
+            yield Case(program=f"{vl} {hbad} ㅅㄷㅎㄷ", variants=(vl,), tag='handler-untouched-list', stdin="x\n")
+            yield Case(program=f"({v} {hbad} ㅅㄷㅎㄷ) (ㄱㅇㄱ ㅎ) ㅅㄷㅎㄷ", variants=(v,), tag='handler-untouched-nested', stdin="x\n")
+            # … and when the first argument does raise, the faulty handler's own failure is what propagates (model)
+            yield Case(program=f"(ㄹ ㄷㅂㅎㄴ ㄷㅈㅎㄴ) {hbad} ㅅㄷㅎㄷ", tag='handler-faulty-used', stdin="x\n")
+            yield Case(program=f"((ㄹ ㄷㅂㅎㄴ ㄷㅈㅎㄴ) {hbad} ㅅㄷㅎㄷ) (ㄱㅇㄱ ㅎ) ㅅㄷㅎㄷ", tag='handler-faulty-used-nested', stdin="x\n")
         # built-in failures: contents begin [5, class]
         for prog in ["ㄴ ㄱ ㄴㄴㅎㄷ", "ㄴ ㅁㅈㅎㄱ ㄷㅎㄷ", "ㄹ ㅇㄱ", "ㅈㅈㅈㅈㅈ ㅎㄱ", "ㄱ ㄴ ㅁㄹㅎㄷ ㄷ ㅎㄴ".replace("ㄱ ㄴ ㅁㄹㅎㄷ ㄷ ㅎㄴ", "ㄷ (ㄱ ㄴ ㅁㄹㅎㄷ) ㅎㄴ"),
                      "ㄴ (ㅅㅈㅎㄱ) ㅎㄴ", "ㅁㅈㅎㄱ ㅈㅅㅎㄴ", "ㄴ ㄷ ㄱ ㅅㅎㄹ"]:
